@@ -110,6 +110,15 @@ def payloads(fx_dir, tier):
         'nested': (f'<!DOCTYPE ROOT [<!ENTITY a "{MARK}"><!ENTITY b "&a;&a;"><!ENTITY c "&b;&b;">]>', '&c;', True),
         'laughs_small': ('<!DOCTYPE ROOT [<!ENTITY l0 "%s">%s]>' % (
             MARK, ''.join(f'<!ENTITY l{i} "&l{i-1};&l{i-1};&l{i-1};">' for i in range(1, 5))), '&l4;', True),
+        # standalone documents and references to undeclared parameter entities: what the scanning parser and the
+        # real parser do with them must not differ in a way that lets a later declaration through
+        'standalone_internal_used': (f'<!DOCTYPE ROOT [<!ENTITY x "{MARK}">]>', '&x;', True, True),
+        'standalone_undeclared_pe': (f'<!DOCTYPE ROOT [ %undeclared; <!ENTITY x "{MARK}">]>', '&x;', True, True),
+        # not standalone: after the reference to an undeclared parameter entity a non-validating processor may
+        # ignore the declarations that follow (XML 1.0, 5.1): refused as forbidden or as not well-formed (undefined
+        # entity), never expanded
+        'undeclared_pe': (f'<!DOCTYPE ROOT [ %undeclared; <!ENTITY x "{MARK}">]>', '&x;', 'skippable'),
+        'standalone_external_subset': (f'<!DOCTYPE ROOT SYSTEM "file://{extdtd}" [<!ENTITY x "{MARK}">]>', '&x;', True, True),
         'after_70k_prolog': (big + f'<!DOCTYPE ROOT [<!ENTITY x "{MARK}">]>', '&x;', True),
     }
     if tier == 'thorough':
@@ -120,7 +129,7 @@ def payloads(fx_dir, tier):
 ENCODINGS = ('utf-8', 'utf-8-sig', 'utf-16', 'latin-1')
 
 
-def document(role, dtd, use, encoding):
+def document(role, dtd, use, encoding, standalone=False):
     """(text, bytes) of the payload document for a role; ROOT is replaced by the actual root name."""
     if role == 'instance':
         root = 'r'
@@ -132,7 +141,8 @@ def document(role, dtd, use, encoding):
                 f'</xs:documentation></xs:annotation><xs:element name="e_{role}" type="xs:string"/></xs:schema>')
     dtd = dtd.replace('ROOT', root)
     decl_enc = {'utf-8': 'UTF-8', 'utf-8-sig': 'UTF-8', 'utf-16': 'UTF-16', 'latin-1': 'ISO-8859-1'}[encoding]
-    text = f'<?xml version="1.0" encoding="{decl_enc}"?>\n{dtd}\n{body}'
+    sa = ' standalone="yes"' if standalone else ''
+    text = f'<?xml version="1.0" encoding="{decl_enc}"{sa}?>\n{dtd}\n{body}'
     return text, text.encode(encoding)
 
 
@@ -181,8 +191,8 @@ def applies(mode, kind, role, base='none'):
 
 def run_cell(xmlschema, probes_counter, fx_dir, mode, role, kind, pname, payload, encoding, lazy=False, base='none'):
     from xmlschema.exceptions import XMLResourceForbidden
-    dtd, use, declares = payload
-    text, data = document(role, dtd, use, encoding)
+    dtd, use, declares = payload[:3]
+    text, data = document(role, dtd, use, encoding, standalone=len(payload) > 3 and payload[3])
     opener = StubOpener()
     path = os.path.join(fx_dir, 'payload.xml' if role == 'instance' else 'payload.xsd')
     with open(path, 'wb') as f:
@@ -333,7 +343,7 @@ def run_shard(spec, res):
 
 def judge(res, xmlschema, counter, fx_dir, cell, payload, result, events):
     mode, role, kind = cell['mode'], cell['role'], cell['kind']
-    dtd, use, declares = payload
+    dtd, use, declares = payload[:3]
     app = applies(mode, kind, role, cell.get('base', 'none'))
     res.case(env.h8(tuple(sorted(cell.items()))) if (app and declares) else None)
     res.count('cells')
@@ -357,6 +367,10 @@ def judge(res, xmlschema, counter, fx_dir, cell, payload, result, events):
                 res.violation(f'external-identifier-fetched:{role}:{kind}:{cell["payload"]}', cell, f'{cell}: {fetched[:2]}')
             else:
                 res.count('refused_import_skipped_with_warning')
+            return
+        if declares == 'skippable' and raised and raised != 'forbidden' and 'undefined entity' in (result.get('msg') or '') \
+                and not expanded and not fetched:
+            res.count('skippable_declaration:refused_as_undefined_entity')
             return
         if raised != 'forbidden':
             res.violation(f'payload-not-refused:{role}:{kind}:{cell["payload"]}', cell,
